@@ -1,6 +1,8 @@
 package main
 
 import (
+	"runtime"
+	"strconv"
 	"bytes"
 	"context"
 	"fmt"
@@ -115,7 +117,34 @@ func runOne(ctx context.Context, cmd []string, file string, timeout time.Duratio
 }
 
 // Solve races the three solvers on the query; first definitive answer wins.
+// loadFactor stretches solver time limits on an overloaded machine: a limit is meant as CPU time the solver
+// gets, and with more runnable processes than cores (several checks started at once) a solver gets only a
+// fraction of the wall clock. Factor = 1-minute load average / number of CPUs, between 1 and 8.
+func loadFactor() float64 {
+	b, err := os.ReadFile("/proc/loadavg")
+	if err != nil {
+		return 1
+	}
+	f := strings.Fields(string(b))
+	if len(f) == 0 {
+		return 1
+	}
+	l, err := strconv.ParseFloat(f[0], 64)
+	if err != nil {
+		return 1
+	}
+	x := l / float64(runtime.NumCPU())
+	if x < 1 {
+		return 1
+	}
+	if x > 8 {
+		return 8
+	}
+	return x
+}
+
 func Solve(query string, dir, name string, timeout time.Duration, wantModel bool) SolverResult {
+	timeout = time.Duration(float64(timeout) * loadFactor())
 	file := filepath.Join(dir, name+".smt2")
 	if err := os.WriteFile(file, []byte(query), 0o644); err != nil {
 		return SolverResult{Verdict: "error", Output: err.Error()}
